@@ -309,6 +309,21 @@ pub fn pumping(ev: Ev) -> Vec<String> {
     out.push(rep("-", 256));
     out.sort();
     out.dedup();
+    // inputs of exactly 255 and 256 characters (the limit of C01): one long literal, leading zeros, leading
+    // blanks, a chain, nesting
+    for target in [255usize, 256] {
+        out.push(format!("1{}", "0".repeat(target - 1)));
+        out.push(format!("{}1", "0".repeat(target - 1)));
+        out.push(format!("{}1+1", " ".repeat(target - 3)));
+        out.push(format!("{}1", "-".repeat(target - 1)));
+        let chain = format!("1{}", "+1".repeat((target - 1) / 2));
+        out.push(if chain.len() < target { format!("{}1", chain) } else { chain });
+        let n = (target - 1) / 2;
+        let core = if 2 * n + 1 == target { "1" } else { "11" };
+        out.push(format!("{}{}{}", "(".repeat(n), core, ")".repeat(n)));
+        out.push(format!("{}{}{}", "abs(".repeat((target - 1) / 5), "1".repeat(target - 5 * ((target - 1) / 5)), ")".repeat((target - 1) / 5)));
+    }
+
     out
 }
 
